@@ -80,6 +80,12 @@ def run(ctx):
              "with; IF..ELSE emits its jump over the ELSE part unconditionally between the THEN "
              "part and the else label")
     rule_j(ctx, cr)
+    ctx.rule("C01.k", "FOR/NEXT frame protocol: FOR evaluates start, limit, step once in source "
+             "order and emits no entry test (first pass always runs); NEXT pops the four-entry "
+             "frame, stores the incremented variable, tests against the limit by the sign of the "
+             "step, and on continuing pushes the same frame back in the same order and returns to "
+             "the loop body; a missing STEP is 1; no frame on top is NEXT WITHOUT FOR")
+    rule_k(ctx, cr)
 
 
 def rule_a(ctx, cr):
@@ -344,6 +350,133 @@ def rule_d(ctx, cr):
     ctx.check(flags == {"OnGoto": False, "OnGosub": True}, "C01.d", "statement/on-flag", gs.span,
               "ON..GOTO / ON..GOSUB pass is_gosub = false / true",
               "ON..GOTO / ON..GOSUB pass is_gosub = %s" % flags)
+
+
+def origin_sites(f, op, pat, depth=0, seen=None):
+    """blocks of the calls matching `pat` whose result flows into operand `op` through moves,
+    clones, `?`, payload projections and references (call SITES, unlike describe())"""
+    seen = seen if seen is not None else set()
+    out = set()
+    p = op_place(op)
+    if p is None or depth > 14:
+        return out
+    l = p["local"]
+    if l in seen:
+        return out
+    seen.add(l)
+    for d in f.defs().get(l, []):
+        if d[0] == "call":
+            c = d[2]
+            if re.search(pat, c.name):
+                out.add(c.bb)
+            elif re.search(r"(Try>?::branch|Clone>?::clone|From<.*>>?::from|Into<.*>>?::into|"
+                           r"Deref>?::deref|IntoIterator>?::into_iter|Iterator>?::next)$", c.name):
+                for a in c.args[:1]:
+                    out |= origin_sites(f, a, pat, depth + 1, seen)
+        elif d[0] == "stmt":
+            rv = d[3]
+            if rv["k"] in ("use", "cast"):
+                out |= origin_sites(f, rv["op"], pat, depth + 1, seen)
+            elif rv["k"] in ("ref", "discriminant"):
+                out |= origin_sites(f, {"k": "copy", "place": {"local": rv["place"]["local"],
+                                                               "proj": []}}, pat, depth + 1, seen)
+            elif rv["k"] == "aggregate":
+                for o in rv["ops"]:
+                    out |= origin_sites(f, o, pat, depth + 1, seen)
+    return out
+
+
+def rule_k(ctx, cr):
+    """FOR/NEXT frame protocol"""
+    g = cr.need_fn("mach::codegen::Generator::for")
+    ctx.touch(g)
+    pops = _seq(g, [c for c in g.calls_to("mach::stack::Stack<T>::pop")
+                    if g.describe(c.args[0]).endswith(".expr")])
+    apps = _seq(g, g.calls_to("mach::link::Link::append"))
+    store = g.calls_to("mach::codegen::VarItem::push_as_pop_unary")
+    pf = g.calls_to("mach::link::Link::push_for")
+    ok = len(pops) == 3 and len(apps) == 3 and len(store) == 1 and len(pf) == 1
+    if ok:
+        # the expression stack is LIFO: step was pushed last, so it is popped first
+        want = [pops[2].bb, pops[1].bb, pops[0].bb]        # from, to, step
+        got = [sorted(origin_sites(g, a.args[1], r"Stack<T>::pop$")) for a in apps]
+        ok = all(len(x) == 1 and x[0] == w for x, w in zip(got, want))
+        ok = ok and g.dominates(apps[0].bb, store[0].bb) and g.dominates(store[0].bb, apps[1].bb) \
+            and g.dominates(apps[2].bb, pf[0].bb)
+    ctx.check(ok, "C01.k", "for/template-order", g.span,
+              "FOR emits: start value, store into the variable, limit, step, variable name, the "
+              "Next marker - x, y, z are evaluated once, in that order",
+              "Generator::for no longer emits start, store, limit, step in source order (the "
+              "operands are popped step, limit, start): x, y, z are evaluated in another order or "
+              "the wrong expression becomes the limit/step")
+    emits = [c for c in g.calls() if re.search(r"Link::push_(jump|ifnot)$", c.name)]
+    lf = cr.need_fn("mach::link::Link::push_for")
+    emits += [c for c in lf.calls() if re.search(r"Link::push_(jump|ifnot)$", c.name)]
+    ctx.check(not emits, "C01.k", "for/no-entry-test", g.span,
+              "FOR emits no branch: the first pass always runs")
+    n = cr.need_fn("mach::runtime::Runtime::next")
+    ctx.touch(n)
+    npops = _seq(n, n.calls_to("mach::stack::Stack<T>::pop"))
+    npush = _seq(n, n.calls_to("mach::stack::Stack<T>::push"))
+    okf = len(npops) == 4 and len(npush) == 4
+    detail = ""
+    if okf:
+        # re-push order is the reverse of the pop order: (to, step, name, Next)
+        for k, c in enumerate(npush):
+            src = origin_sites(n, c.args[1], r"Stack<T>::pop$")
+            want = npops[3 - k].bb
+            if src != {want}:
+                okf = False
+                detail = "push #%d re-pushes the value of pop at bb%s, expected the pop at bb%d" % (
+                    k + 1, sorted(src), want)
+    ctx.check(okf, "C01.k", "next/frame-preserved", n.span,
+              "NEXT pops marker, name, step, limit and, when the loop continues, pushes the same "
+              "four values back in reverse order",
+              "NEXT does not put the frame back as it found it (%s): the limit/step of the loop "
+              "changes after the first iteration or the frame is mis-read by the next NEXT"
+              % (detail or "%d pops / %d pushes" % (len(npops), len(npush))))
+    # continue <=> not done: pc store and re-push on the same paths
+    pcs = [b for b, st, v in n.field_stores("pc")]
+    okp = len(pcs) == 1 and npush and all(n.dominates(c.bb, pcs[0]) or n.dominates(pcs[0], c.bb)
+                                           for c in npush)
+    ctx.check(bool(okp), "C01.k", "next/jump-back-with-frame", n.span,
+              "pc returns to the loop body exactly where the frame is re-pushed")
+    # the finished test depends on the sign of the step
+    sm = n.calls_to("mach::operation::Operation::sum")
+    less = n.calls_to("mach::operation::Operation::less")
+    oks = len(sm) == 1 and len(less) == 2
+    if oks:
+        arms = {}
+        for c in less:
+            neg = None
+            for op, l, r, truth in n.cmp_conds_at(c.bb):
+                if op == "Lt" and n.describe(r) in ("const:0.0", "const:0"):
+                    neg = truth
+            a0 = bool(origin_sites(n, c.args[0], r"Operation::sum$"))
+            a1 = bool(origin_sites(n, c.args[1], r"Operation::sum$"))
+            arms[neg] = (a0, a1)
+        oks = arms.get(True) == (True, False) and arms.get(False) == (False, True)
+    ctx.check(oks, "C01.k", "next/done-test-by-sign", n.span,
+              "finished when current < limit for a negative step, limit < current otherwise",
+              "the loop-finished comparison no longer depends on the sign of the step in the "
+              "documented way (negative step: current < limit; else limit < current)")
+    st = n.calls_to("mach::var::Var::store")
+    ctx.check(len(st) == 1 and bool(origin_sites(n, st[0].args[2], r"Operation::sum$")) and
+              all(n.dominates(st[0].bb, c.bb) for c in less), "C01.k", "next/increment-stored-first",
+              n.span, "the variable is incremented and stored before the test")
+    codes = {c for _b, c, _s in n.error_codes()}
+    ctx.check("NextWithoutFor" in codes, "C01.k", "next/without-for", n.span,
+              "a NEXT that finds no Next marker on top is NEXT WITHOUT FOR")
+    sf = cr.need_fn("lang::ast::Statement::for")
+    ctx.touch(sf)
+    one = [st_ for b, i, st_ in sf.aggregates("lang::ast::Expression", "Integer")
+           if sf.const_of_operand(st_["rv"]["ops"][1]) == 1]
+    ctx.check(len(one) == 1, "C01.k", "for/default-step", sf.span, "a missing STEP is 1")
+
+
+def _seq(f, calls):
+    """calls in execution order along the dominator tree (ties by block number)"""
+    return sorted(calls, key=lambda c: (len(f.dominators().get(c.bb, ())), c.bb))
 
 
 def rule_j(ctx, cr):
